@@ -50,12 +50,11 @@ int32_t jls_core_fsr_sample_buffer_alloc(struct jls_core_fsr_s * self) {
     size_t sample_buffer_sz = sizeof(struct jls_payload_header_s) + (sample_size_bits(self) * self->parent->signal_def.samples_per_data) / 8;
     self->data = malloc(sample_buffer_sz);
     if (!self->data) {
-        jls_fsr_close(self);
         return JLS_ERROR_NOT_ENOUGH_MEMORY;
     }
     self->data_f64 = malloc(self->parent->signal_def.samples_per_data * sizeof(double));
     if (!self->data_f64) {
-        jls_fsr_close(self);
+        jls_core_fsr_sample_buffer_free(self);  // the instance stays valid, owned by the signal
         return JLS_ERROR_NOT_ENOUGH_MEMORY;
     }
     JLS_LOGD1("%d sample_buffer alloc %p", self->parent->signal_def.signal_id, (void *) self->data);
